@@ -214,7 +214,7 @@ def locs_job(job):
         else:
             for d0 in (0, 1):
                 for k in vals: names.append((f'data{d0}[{k}]', (d0, k)))
-        others = ['clk', 'dat'] + (['database[3]', 'data_valid'] if collide else [])
+        others = ['clk', 'dat', 'wdata[1]', 'mydata_2_', 'xdata3'] + (['database[3]', 'data_valid'] if collide else [])      # the prefix is anchored at the start of a name
         allnames = [n for n, _ in names] + others
         order = list(range(len(allnames)))
         import random
